@@ -15,7 +15,9 @@ import (
 func (e *Exec) call(s *State, ins ssa.Instruction, c *ssa.CallCommon) Value {
 	var args []Value
 	for _, a := range c.Args {
-		args = append(args, e.val(s, a))
+		av := e.val(s, a)
+		args = append(args, av)
+		e.assertValInv(s, av, a.Type(), ins, "passed as an argument")
 	}
 	var fv Value
 	if c.IsInvoke() {
@@ -359,7 +361,10 @@ func (e *Exec) applyContract(s *State, ins ssa.Instruction, fc *FuncContract, si
 	pre := s.clone()
 	for i, r := range fc.Requires {
 		g := sub.evalWith(e, r, s, s, vars)
-		e.addObl(s, fmt.Sprintf("%s/call:%s#%d/requires#%d", e.funcKey, cname, ord, i+1), "requires-at-call", g, pos, r.Text)
+		if e.quiet == 0 {
+			e.obls = append(e.obls, &Obligation{Name: fmt.Sprintf("%s/call:%s#%d/requires#%d", e.funcKey, cname, ord, i+1), Kind: "requires-at-call",
+				Pos: pos, Goal: g, Hyp: s.pc, Func: e.funcKey, Text: r.Text, Props: unionProps(orProps(r.Props, orProps(fc.Props, e.props))), Mode: e.mode, exec: e})
+		}
 		s.assume(g)
 	}
 	// havoc modifies
@@ -858,13 +863,16 @@ func (e *Exec) selectInstr(s *State, x *ssa.Select) Value {
 	for _, st := range x.States {
 		if st.Dir == types.RecvOnly {
 			et := st.Chan.Type().Underlying().(*types.Chan).Elem()
-			out = append(out, e.freshValue(s, "selrecv", et))
+			rv := e.freshValue(s, "selrecv", et)
+			e.assumeValInv(s, rv, et)
+			out = append(out, rv)
 		}
 	}
 	return &TupleV{E: out}
 }
 
 func (e *Exec) sendInstr(s *State, x *ssa.Send) {
+	e.assertValInv(s, e.val(s, x.X), x.X.Type(), x, "sent on a channel")
 	e.logAbs("channel send: no effect on the sending thread")
 	if e.fc != nil {
 		// hook for lock-scoped send rule
